@@ -139,6 +139,9 @@ def body_factory(interaction="additive", start=2000.25, stop=None, overwrite=Non
             tvec = [float(t) for t in m.t]
             for ti, t in enumerate(tvec):
                 active = (start <= t) and (stop is None or t <= stop)
+                env.claim("programs_applied_exactly_when_active|t%d" % ti, env.true((ti in used_cov) == active), key="programs_applied")
+                if active and ti not in used_cov:
+                    continue
                 # ---- independent coverage specification
                 cov_spec = {}
                 for name, comps, one_off, pars in PROGS:
